@@ -434,10 +434,62 @@ pub(crate) mod verif_mpmc {
         bits
     }
 
+    /// C09 for buffer flavours and payloads where the backing store does not bound the element count by itself
+    /// (zero-sized payloads): capacity bound and rendezvous through try_send / try_receive / one send future.
+    pub fn zst_capacity<A: RingBuf<Item = ZVal>, S: Src>(s: &mut S, cap: usize, n: usize, p: u32) -> u32 {
+        let ch = GenericChannel::<NoopLock, ZVal, A>::with_capacity(cap);
+        let mut len = 0usize;
+        let mut step = 0;
+        while step < n && !s.exhausted() {
+            step += 1;
+            if s.flag() {
+                s.assume(cap > 0); // (try_send is documented as unsupported on unbuffered channels)
+                match ch.try_send(ZVal) {
+                    Ok(()) => {
+                        oracle!(p, P09, len < cap, "C09 mpmc: try_send accepted a value although `capacity` values are buffered and no receiver waits");
+                        len += 1;
+                    }
+                    Err(e) => {
+                        oracle!(p, P09, len == cap && e.is_full(), "C09 mpmc: try_send refused a value although the buffer has room");
+                        core::mem::forget(e);
+                    }
+                }
+            } else {
+                match ch.try_receive() {
+                    Ok(v) => {
+                        oracle!(p, P09, len > 0, "C09 mpmc: try_receive yielded a value although none was accepted");
+                        core::mem::forget(v);
+                        len -= 1;
+                    }
+                    Err(_) => { oracle!(p, P09, len == 0, "C09 mpmc: try_receive found nothing although accepted values are buffered"); }
+                }
+            }
+        }
+        // a send future completes at once iff there is room (never on a rendezvous channel without a receiver)
+        let cell = WakeCell::new();
+        let waker = ManuallyDrop::new(mk_waker(&cell));
+        let mut cx = Context::from_waker(&waker);
+        let mut f = ManuallyDrop::new(ch.send(ZVal));
+        match unsafe { Pin::new_unchecked(&mut *f) }.poll(&mut cx) {
+            Poll::Ready(r) => {
+                oracle!(p, P09, len < cap && r.is_ok(), "C09 mpmc: a send completed although its value was neither stored (buffer full / capacity 0) nor taken by a receiver");
+                core::mem::forget(r);
+            }
+            Poll::Pending => { oracle!(p, P09, len == cap, "C09 mpmc: a send stays pending although the buffer has room"); }
+        }
+        // (the future and the channel are leaked: dropping is not the subject here)
+        core::mem::forget(ch);
+        s.reached(len as u32);
+        len as u32
+    }
+
     #[no_mangle]
     pub fn fi_verif_replay_mpmc(name: &str, cfg: u32, p: u32, s: &mut ScriptSrc<'_>) -> bool {
         let cap = (cfg & 3) as usize;
         match (name, cap) {
+            #[cfg(feature = "alloc")]
+            ("mpmc_zst_fixedheap", _) => { zst_capacity::<crate::buffer::FixedHeapBuf<ZVal>, _>(s, cap, 64, p); }
+            ("mpmc_zst_array", 2) => { zst_capacity::<ArrayBuf<ZVal, [ZVal; 2]>, _>(s, 2, 64, p); }
             ("mpmc_hist_noop", 0) => { hist::<NoopLock, ArrayBuf<Tag, [Tag; 0]>, _>(s, cfg, 0, 64, p); }
             ("mpmc_hist_noop", 1) => { hist::<NoopLock, ArrayBuf<Tag, [Tag; 1]>, _>(s, cfg, 1, 64, p); }
             ("mpmc_hist_noop", 2) => { hist::<NoopLock, ArrayBuf<Tag, [Tag; 2]>, _>(s, cfg, 2, 64, p); }
@@ -757,15 +809,31 @@ pub(crate) mod verif_mpmc {
         use super::*;
         #[kani::proof]
         #[kani::unwind(4)]
+        fn zst_fixedheap_c0() { let _ = zst_capacity::<crate::buffer::FixedHeapBuf<ZVal>, _>(&mut KaniSrc, 0, 2, P09); }
+        #[kani::proof]
+        #[kani::unwind(5)]
+        fn zst_fixedheap_c2() { let _ = zst_capacity::<crate::buffer::FixedHeapBuf<ZVal>, _>(&mut KaniSrc, 2, 4, P09); }
+        #[kani::proof]
+        #[kani::unwind(5)]
+        fn zst_array_c2() { let _ = zst_capacity::<ArrayBuf<ZVal, [ZVal; 2]>, _>(&mut KaniSrc, 2, 4, P09); }
+        #[kani::proof]
+        #[kani::unwind(4)]
         fn repoll_panics_send() {
             let ch = GenericChannel::<NoopLock, Tag, ArrayBuf<Tag, [Tag; 1]>>::new();
+            // both completion paths: Ok(()) on an open channel with room, Err(own value) on a closed one
+            if kani::any() { let _ = ch.close(); }
             repoll_after_ready(ch.send(Tag(1)));
         }
         #[kani::proof]
         #[kani::unwind(4)]
         fn repoll_panics_receive() {
             let ch = GenericChannel::<NoopLock, Tag, ArrayBuf<Tag, [Tag; 1]>>::new();
-            core::mem::forget(ch.try_send(Tag(1)));
+            // both completion paths: Some(value), and None on a closed and drained channel
+            let sent: bool = kani::any();
+            let closed: bool = kani::any();
+            kani::assume(sent || closed);
+            if sent { core::mem::forget(ch.try_send(Tag(1))); }
+            if closed { let _ = ch.close(); }
             repoll_after_ready(ch.receive());
         }
         #[kani::proof]
